@@ -545,13 +545,21 @@ func (e *Engine) emitGreedy(p *partition, survivors *[]*run) []map[string]any {
 	if len(p.pending) == 0 {
 		return nil // 默认贪婪模式每事件调用：无在途匹配时短路，避免无用 map 分配
 	}
-	active := make(map[int64]bool, len(*survivors))
+	// Leftmost-first: a finished start waits not only for its own runs to stop
+	// extending but also for every run that started on an earlier row and is still
+	// in progress - that one may yet complete, comes first in match order and, under
+	// SKIP PAST LAST ROW, swallows the later start ((A B+ | B) over A B B is one match
+	// A B B, not B and B). If the earlier run dies instead, the later start is
+	// emitted then. survivors is empty at Flush: everything pending is emitted.
+	var minActive int64 = maxInt64
 	for _, r := range *survivors {
-		active[r.startSeq] = true
+		if r.startSeq < minActive {
+			minActive = r.startSeq
+		}
 	}
 	var ready []int64
 	for s := range p.pending {
-		if !active[s] && s >= p.nextStart {
+		if s < minActive && s >= p.nextStart {
 			ready = append(ready, s)
 		}
 	}
